@@ -158,6 +158,17 @@ CHECKS.update({
     ),
 })
 
+CHECKS.update({
+    "C11": dict(
+        engine="E1+E4 baton scheduler",
+        category="exploration",
+        text="Generated programs (poller: Ring::poll(Some(0)) x0..2 then Ring::poll(None); 1..3 waker threads calling wake() once or twice; default, kernel-thread and single-issuer rings; optionally a full submission queue) executed under a baton scheduler with scheduling points at a10's lock/try_lock, kernel-shared loads, tail/head stores and the polling-state swap/fetch_or, following generated choice tapes; oracle over the total order: a wake() that started after the previous poll returned must make the blocking poll return (stuck state = poller parked in enter with no runnable thread); wake() after the Ring is dropped is harmless.",
+        design_ref="5/C11",
+        technique="schedule-exploring property-based testing (generated interleavings under a baton scheduler) with a lost-wake-up oracle",
+        note="Trusted: simulated kernel (MSG_RING delivery, SQPOLL idle/wake-up protocol), scheduler hook placement; sequential consistency only; bounded liveness (no runnable thread) rather than eventual progress under all fair schedules.",
+    ),
+})
+
 NOT_YET = {
 }
 
